@@ -805,6 +805,12 @@ sock_close(nni_sock *s, bool device)
 	}
 	nni_mtx_unlock(&sock_lk);
 
+	// A send or receive that was being submitted while we shut down held
+	// one of those references, and may have queued itself after the
+	// protocol failed its queued operations.  Nobody can reach the socket
+	// any more, so fail whatever arrived late.
+	s->s_sock_ops.sock_close(s->s_data);
+
 	// Because we already shut everything down before, we should not
 	// have any child objects.
 	nni_mtx_lock(&s->s_mx);
